@@ -209,9 +209,8 @@ func c08RunTree(x *h.Ctx, c c08TreeCase) {
 			reloaded = true
 		case "rollback":
 			// the DAG reloads the trees from the persisted leaves when a write transaction rolls back
-			if len(persisted) == 0 || !persistedAny {
-				x.Class("rollback-before-first-persist(skipped)")
-				continue
+			if len(persisted) == 0 {
+				x.Class("rollback-before-first-persist")
 			}
 			if !reload() {
 				return
